@@ -45,3 +45,7 @@ def run(check: Check, repo: Repo, tier: str) -> None:
                                                       "type.scalars", "type.definition", "execution.values")])
     check.floor("SENTINEL-IDENTITY", 20, "comparisons against Undefined on the coercion path")
     K.regex_fullmatch(check, repo, ["type.scalars", "utilities.value_to_literal", "utilities.ast_from_value"])
+    from rules import exec_rules as X
+    X.attr_memo(check, repo, [repo.mod(m) for m in ("utilities.coerce_input_value", "utilities.validate_input_value", "utilities.value_to_literal",
+                                                   "utilities.get_default_value_ast", "execution.values")])
+    check.floor("ATTR-MEMO", 1, "object-attribute memos on the coercion path")
